@@ -194,8 +194,8 @@ def expQuantile (op : String) (pre args : List String) : Exp := do
              | .val s => ex (wQuantile s)
              | .panic => ex ["panic"]
   | "add" => let s ← run pQuantile pre; let x ← run pF args; ex (wQuantile (s.add x))
-  | "quantile" => let s ← run pQuantile pre; exF s.quantile
-  | "estimate" => let s ← run pQuantile pre; exF s.estimate
+  | "quantile" => let s ← run pQuantile pre; num [wF s.quantile]
+  | "estimate" => let s ← run pQuantile pre; num [wF s.estimate]
   | "p" => let s ← run pQuantile pre; exF s.p
   | "len" => let s ← run pQuantile pre; exN s.len
   | "is_empty" => let s ← run pQuantile pre; exB s.isEmpty
